@@ -330,7 +330,7 @@ func runCheck(prop, tier string) int {
 		if af.f.Prop != prop {
 			continue // oracles of other properties never run in this check; defensive
 		}
-		if kf := known.match(prop, af.f.Sig); kf != nil {
+		if kf := known.match(af.f.Prop, af.f.Sig); kf != nil {
 			if !knownSeen[kf.Signature] {
 				knownSeen[kf.Signature] = true
 				fmt.Printf("KNOWN-FINDING: property=%s %s [signature %s, %d occurrences, e.g. %s]\n", prop, kf.What, af.f.Sig, af.f.Count, strings.Join(af.f.Trace, " ; "))
